@@ -182,6 +182,9 @@ def check_packet(p, own, indeterminate=False):
         elif type(obj2).__name__ == 'LiteralData':
             obj2.filename = 'edited-name.bin'
             want = lambda body: indep.literal(body)['filename'] == b'edited-name.bin'
+        elif type(obj2).__name__ == 'Trust':
+            obj2.trustlevel = 3 if int(obj2.trustlevel) != 3 else 4
+            want = lambda body: len(body) == 2 and body[1] & 0x0F == int(obj2.trustlevel)
         if want is not None:
             obj2.update_hlen()
             s3 = bytes(obj2)
